@@ -20,6 +20,7 @@ File format:
     tags: large
 """
 
+import ast
 import re
 from dataclasses import dataclass, field
 from pathlib import Path
@@ -95,15 +96,27 @@ def calculate_specificity(rule: MerchantRule) -> Tuple[int, int, int, int]:
         contains("UBER") and contains("EATS")     -> (50, 2, 0, 8)
         contains("UBER") and amount > 50          -> (50, 1, 1, 4)
     """
-    expr = rule.match_expr.lower()
+    # Counted on the parsed expression, so that text inside string literals
+    # (contains("SUNDAY") mentions no `day`) and longer identifiers do not count
+    try:
+        nodes = list(ast.walk(expr_parser.parse_expression(rule.match_expr)))
+    except expr_parser.ExpressionError:
+        nodes = []
 
     # Count pattern conditions (each pattern function adds specificity)
     pattern_funcs = ['contains(', 'regex(', 'normalized(', 'startswith(', 'fuzzy(', 'anyof(']
-    pattern_count = sum(expr.count(f) for f in pattern_funcs)
+    pattern_count = sum(
+        1 for n in nodes
+        if isinstance(n, ast.Call) and isinstance(n.func, ast.Name) and n.func.id.lower() + '(' in pattern_funcs
+    )
 
     # Count field constraints (amount, date, month, etc.)
     field_keywords = ['amount', 'date', 'month', 'year', 'day', 'weekday', 'source', 'field.']
-    field_count = sum(1 for kw in field_keywords if kw in expr)
+    used = {n.id.lower() for n in nodes if isinstance(n, ast.Name)}
+    used |= {n.attr.lower() for n in nodes if isinstance(n, ast.Attribute)}
+    if 'field' in used:
+        used.add('field.')
+    field_count = sum(1 for kw in field_keywords if kw in used)
 
     # Extract pattern text length (rough measure of specificity)
     pattern_length = _extract_pattern_length(rule.match_expr)
